@@ -1030,11 +1030,11 @@ Section Uniform.
       rewrite (Hc f p Hf Hp). now apply spec_content_len.
   Qed.
 
-  Lemma export_meta_spec rnd cfg pre ds innate sm filt filtered skip logs tables
+  Lemma export_meta_spec rnd cfg pre f0 ds innate sm filt filtered skip logs tables
         basins features (calls : list (call A)) om :
     wf_ds A ds -> len filt = ds_len ds ->
-    export_full A d z enum rnd cfg pre ds innate sm filt filtered skip logs tables
-                basins features = Ok (calls, om) ->
+    export_full A d z enum rnd cfg pre f0 ds innate sm filt filtered skip logs
+                tables basins features = Ok (calls, om) ->
     exists cnt,
       export A d z enum cfg ds filt filtered skip (req_features features innate)
       = Ok (calls, cnt)
@@ -1106,19 +1106,100 @@ Proof.
     cbn [app]. now apply IH.
 Qed.
 
-Lemma export_texts_spec (A : Type) (d z : A) (enum : Z -> A) rnd cfg pre ds innate
-      sm filt filtered skip logs tables basins features
+(* write_text *)
+Lemma width_ge (lines : list line) l : In l lines -> len l <= width_of lines.
+Proof.
+  unfold width_of. induction lines as [|h t IH]; intros H; [destruct H|].
+  cbn [fold_right]. destruct H as [->|H]; [lia|]. specialize (IH H). lia.
+Qed.
+
+Lemma fit_id w (l : line) : len l <= w -> fit w l = l.
+Proof. intros H. unfold fit. apply firstn_all2. unfold len in H. lia. Qed.
+
+Lemma fit_all (lines : list line) : map (fit (width_of lines)) lines = lines.
+Proof.
+  transitivity (map (fun x : line => x) lines); [|apply map_id].
+  apply map_ext_in. intros l Hl. apply fit_id. now apply width_ge.
+Qed.
+
+Definition tnames (f : tfile) : list Z := map fst f.
+
+Lemma write_text_other f name lines m :
+  m <> name -> text_lookup (write_text f name lines) m = text_lookup f m.
+Proof.
+  intros Hne. induction f as [|[n [w old]] t IH]; cbn [write_text text_lookup].
+  - replace (name =? m) with false by lia. reflexivity.
+  - destruct (n =? name) eqn:E; cbn [text_lookup].
+    + replace (n =? m) with false by lia. reflexivity.
+    + now rewrite IH.
+Qed.
+
+(* a new name gets a width that fits every line: nothing is cut *)
+Lemma write_text_fresh f name lines :
+  ~ In name (tnames f) -> text_lookup (write_text f name lines) name = lines.
+Proof.
+  induction f as [|[n [w old]] t IH]; intros Hn; cbn [write_text text_lookup].
+  - rewrite Z.eqb_refl. apply fit_all.
+  - cbn [tnames map fst In] in Hn.
+    replace (n =? name) with false by (destruct (Z.eqb_spec n name); tauto).
+    cbn [text_lookup].
+    replace (n =? name) with false by (destruct (Z.eqb_spec n name); tauto).
+    apply IH. intros H. apply Hn. now right.
+Qed.
+
+Lemma write_text_names f name lines x :
+  In x (tnames (write_text f name lines)) <-> x = name \/ In x (tnames f).
+Proof.
+  induction f as [|[n [w old]] t IH]; cbn [write_text].
+  - cbn. intuition.
+  - destruct (n =? name) eqn:E; cbn [tnames map fst In] in *.
+    + apply Z.eqb_eq in E. subst. intuition.
+    + rewrite IH. intuition.
+Qed.
+
+Lemma store_logs_spec (pre : Z -> Z) (src : list (Z * list line)) :
+  NoDup (map fst src) -> (forall a b, pre a = pre b -> a = b) ->
+  forall f0, (forall n, In n (map fst src) -> ~ In (pre n) (tnames f0)) ->
+    (forall n l, In (n, l) src ->
+       text_lookup (store_logs true pre src f0) (pre n) = l)
+    /\ (forall m, (forall n, In n (map fst src) -> pre n <> m) ->
+          text_lookup (store_logs true pre src f0) m = text_lookup f0 m).
+Proof.
+  unfold store_logs. intros Hnd Hinj.
+  induction src as [|[n0 l0] t IH]; intros f0 Hfresh.
+  - split; [intros n l []|reflexivity].
+  - cbn [map fst] in Hnd. inversion Hnd as [|? ? Hni Hnd']; subst.
+    cbn [fold_left fst snd].
+    assert (Hf1 : forall n, In n (map fst t) ->
+              ~ In (pre n) (tnames (write_text f0 (pre n0) l0))).
+    { intros n Hn Hin. apply write_text_names in Hin. destruct Hin as [E|Hin].
+      - apply Hinj in E. subst. contradiction.
+      - apply (Hfresh n); [now right|assumption]. }
+    destruct (IH Hnd' (write_text f0 (pre n0) l0) Hf1) as [IH1 IH2].
+    split.
+    + intros n l [E|Hin].
+      * inversion E; subst. rewrite IH2.
+        -- apply write_text_fresh. apply Hfresh. now left.
+        -- intros n' Hn' E'. apply Hinj in E'. subst. contradiction.
+      * now apply IH1.
+    + intros m Hm. rewrite IH2 by (intros n Hn; apply Hm; now right).
+      apply write_text_other. intros ->. apply (Hm n0); [now left|reflexivity].
+Qed.
+
+Lemma export_texts_spec (A : Type) (d z : A) (enum : Z -> A) rnd cfg pre f0 ds
+      innate sm filt filtered skip logs tables basins features
       (calls : list (call A)) om :
-  export_full A d z enum rnd cfg pre ds innate sm filt filtered skip logs tables
-              basins features = Ok (calls, om) ->
+  export_full A d z enum rnd cfg pre f0 ds innate sm filt filtered skip logs
+              tables basins features = Ok (calls, om) ->
   (forall a b, pre a = pre b -> a = b) ->
   (NoDup (map fst (sm_logs sm)) ->
+   (forall n, In n (map fst (sm_logs sm)) -> ~ In (pre n) (tnames f0)) ->
      (logs = true -> forall n l, In (n, l) (sm_logs sm) ->
-        text_content (om_logs om) (pre n) = l)
+        text_lookup (om_logs om) (pre n) = l)
      /\ (logs = true -> forall m, (forall n, In n (map fst (sm_logs sm)) ->
                                    pre n <> m) ->
-        text_content (om_logs om) m = [])
-     /\ (logs = false -> forall m, text_content (om_logs om) m = []))
+        text_lookup (om_logs om) m = text_lookup f0 m)
+     /\ (logs = false -> om_logs om = f0))
   /\ (NoDup (map fst (sm_tables sm)) ->
      (tables = true -> forall n l, In (n, l) (sm_tables sm) ->
         text_content (om_tables om) (pre n) = l)
@@ -1132,21 +1213,33 @@ Proof.
               (req_features features innate)) as [[cs cnt]|c];
     cbn [bind] in H; [|discriminate].
   inversion H; subst. cbn [om_logs om_tables export_meta].
-  split; intros Hnd.
-  - destruct (text_calls_spec pre (sm_logs sm) Hnd Hinj) as (H1 & H2 & H3).
+  split.
+  - intros Hnd Hfresh.
+    destruct (store_logs_spec pre (sm_logs sm) Hnd Hinj f0 Hfresh) as (H1 & H2).
     repeat split; intros ->; auto.
-  - destruct (text_calls_spec pre (sm_tables sm) Hnd Hinj) as (H1 & H2 & H3).
+  - intros Hnd.
+    destruct (text_calls_spec pre (sm_tables sm) Hnd Hinj) as (H1 & H2 & H3).
     repeat split; intros ->; auto.
 Qed.
 
+(* non-vacuity, and the truncation the export never runs into: appending a
+   longer line to an EXISTING log cuts it (C01's finding) *)
+Example ex_write_text :
+  text_lookup (write_text (write_text [] 5 [[1; 2]]) 5 [repeat 7 101]) 5
+  = [[1; 2]; repeat 7 100]
+  /\ text_lookup (write_text [] 5 [repeat 7 101; [1]]) 5 = [repeat 7 101; [1]].
+Proof. vm_compute. split; reflexivity. Qed.
+
 Example ex_export_full :
-  export_full Z 0 0 (fun k => k) 7 1 (fun k => k + 1000)
+  export_full Z 0 0 (fun k => k) 7 1 (fun k => k + 1000) [(-1, (100, [[3]]))]
     (mkDs Z true 3 3 [mkFeat Z 0 KScalar [mkPart Z 0 true true 8 [10; 11; 12]];
                       mkFeat Z 1 KScalar [mkPart Z 0 true true 8 [20; 21; 22]]])
-    [0] (mkSmeta None (Some 99) 5 [(1, [41; 42]); (2, [43])] [(3, [44])])
+    [0] (mkSmeta None (Some 99) 5 [(1, [[41]; [42]]); (2, [[43]])] [(3, [44])])
     [true; false; true] true false true false true None
   = Ok ([(0, 0, [10; 12])],
-        mkOmeta (Some (Some 99, Some 7)) 5 2 [(1001, [41; 42]); (1002, [43])] []).
+        mkOmeta (Some (Some 99, Some 7)) 5 2
+                [(-1, (100, [[3]])); (1001, (100, [[41]; [42]]));
+                 (1002, (100, [[43]]))] []).
 Proof. vm_compute. reflexivity. Qed.
 
 (* ---- channel count -------------------------------------------------------------- *)
@@ -1180,4 +1273,20 @@ Proof.
          [true; true; true], [0; 1].
   split; [|split; [reflexivity|vm_compute; reflexivity]].
   unfold wf_ds; cbn. repeat constructor; auto; cbv; discriminate.
+Qed.
+
+(* ---- images are stored as uint8 ---------------------------------------------------- *)
+Lemma sat8_partial (v : Z) : 0 <= v <= 255 -> sat8 (8 * v) = v.
+Proof.
+  intros H. unfold sat8. rewrite Z.mul_comm, Z.quot_mul by lia. lia.
+Qed.
+
+Lemma sat8_refuted :
+  (exists v, 255 < v /\ sat8 (8 * v) <> v)
+  /\ (exists v, v < 0 /\ sat8 (8 * v) <> v)
+  /\ (exists k, k mod 8 <> 0 /\ 8 * sat8 k <> k).
+Proof.
+  split; [exists 2261; split; [lia|vm_compute; discriminate]|].
+  split; [exists (-3); split; [lia|vm_compute; discriminate]|].
+  exists 20. split; vm_compute; discriminate.
 Qed.
